@@ -186,6 +186,12 @@ def _check(ctx, case):
                 nontrivial = True
             if M.others_during and M.max_pending >= 10:
                 classes.add("flood>=10-pending")
+            if M.stale_same_id:
+                classes.add("polled-after-stale-cancel-with-same-id")
+            if M.others_during:
+                classes.add("polled-with-other-id-pending")
+            if want is None:
+                classes.add("poll-after-report(unconstrained)")
             if want is False and r:
                 cause = "stale-same-id" if M.stale_same_id else ("other-id" if M.others_during else "no-cancel-at-all")
                 verdicts.append(("spurious", cause, f"operation #{oi} (message ID {M.in_progress}) read is_cancelled == True although no C-CANCEL naming it arrived while it was in progress"))
@@ -215,10 +221,12 @@ CHECKS = {"cancel": check_cancel}
 
 # --------------------------------------------------------------------------------------------- generators
 def weighted(*pairs):
+    """(weight, strategy) alternatives with real weights: one_of() de-duplicates a repeated strategy object, so every
+    copy is wrapped in its own map(); unlike a selector + tuple of all alternatives nothing unused is drawn (the
+    shrinker's budget is not spent on branches that were not taken)."""
     from hypothesis import strategies as st
 
-    sel = st.sampled_from([i for i, (w, _) in enumerate(pairs) for _ in range(w)])
-    return st.tuples(sel, *[s for _, s in pairs]).map(lambda t: t[1 + t[0]])
+    return st.one_of(*[s.map(lambda x: x) for w, s in pairs for _ in range(w)])
 
 
 OTHER = list(range(100, 116))
@@ -238,8 +246,9 @@ def strategy(quick):
     )
     few = st.lists(ref, min_size=0, max_size=2)
     flood = st.tuples(st.integers(9, 12), st.booleans()).map(lambda t: [["id", OTHER[i]] for i in range(t[0])] + ([["cur"]] if t[1] else []))
-    cancels = weighted((10, few), (5, st.just([])), (1, flood))
-    slot = st.fixed_dictionaries({"cancels": cancels, "poll": st.sampled_from([True, True, True, False])})
+    cancels = weighted((10, few), (5, st.just([])))
+    slot_cancels = weighted((20, few), (10, st.just([])), (1, flood))
+    slot = st.fixed_dictionaries({"cancels": slot_cancels, "poll": st.sampled_from([True, True, True, False])})
     op = st.fixed_dictionaries(
         {
             "svc": st.sampled_from(["find", "find", "get", "move", "mwl", "srfind"]),
